@@ -113,9 +113,42 @@ pub struct Script {
     /// documented default is 2 MB = 2 000 000 bytes, which is what `limit` holds then
     #[serde(default)]
     pub limit_default: bool,
+    /// content class of the body (same length): 0 = as generated; 1 = starts with the UTF-8 byte
+    /// order mark; 2 = UTF-16 BOM; 3 = leading blanks / CRLF; 4 = trailing blanks and NULs;
+    /// 5 = all zero bytes; 6 = looks like the end of a chunked body (`0\r\n\r\n`) at both ends;
+    /// 7 = gzip magic; 8 = all 0xFF
+    #[serde(default)]
+    pub content_class: u8,
 }
 
 pub fn make_body(script: &Script) -> Vec<u8> {
+    let mut v = make_body_plain(script);
+    let n = v.len();
+    let put = |v: &mut Vec<u8>, at: usize, bytes: &[u8]| {
+        for (i, b) in bytes.iter().enumerate() {
+            if at + i < v.len() {
+                v[at + i] = *b;
+            }
+        }
+    };
+    match script.content_class {
+        1 => put(&mut v, 0, &[0xEF, 0xBB, 0xBF]),
+        2 => put(&mut v, 0, &[0xFE, 0xFF]),
+        3 => put(&mut v, 0, b" \t\r\n \r\n"),
+        4 => put(&mut v, n.saturating_sub(5), b" \r\n\0\0"),
+        5 => v.iter_mut().for_each(|b| *b = 0),
+        6 => {
+            put(&mut v, 0, b"0\r\n\r\n");
+            put(&mut v, n.saturating_sub(5), b"0\r\n\r\n");
+        }
+        7 => put(&mut v, 0, &[0x1F, 0x8B, 0x08, 0x00]),
+        8 => v.iter_mut().for_each(|b| *b = 0xFF),
+        _ => {}
+    }
+    v
+}
+
+fn make_body_plain(script: &Script) -> Vec<u8> {
     let n = script.body_len;
     match script.payload {
         Payload::Random => Rng::new(script.body_seed).bytes(n),
@@ -315,7 +348,18 @@ fn check_typed(script: &Script, head: &RequestHead, got: &[u8], expect: &[u8], o
     match script.payload {
         Payload::Json => {
             let r: Result<JsonBody<serde_json::Value>, _> = JsonBody::extract(head, &bb);
-            let want: Result<serde_json::Value, _> = serde_json::from_slice(expect);
+            // The reference reads the FIRST JSON value of the bytes the client sent. Whether bytes
+            // after a complete value make the document malformed is a question for the typed
+            // extractors' own contract (C15), not for C14: pavex's JsonBody does not look at them
+            // (no `Deserializer::end()`), which is counted below, not reported.
+            let strict: Result<serde_json::Value, _> = serde_json::from_slice(expect);
+            let want: Result<serde_json::Value, _> = match serde_json::Deserializer::from_slice(expect).into_iter::<serde_json::Value>().next() {
+                Some(r) => r,
+                None => serde_json::from_slice(expect),
+            };
+            if strict.is_err() && want.is_ok() && r.is_ok() {
+                out.count("observation_json_bytes_after_first_value_ignored", 1);
+            }
             match (r, want) {
                 (Ok(JsonBody(v)), Ok(w)) => {
                     out.count("json_extracted", 1);
@@ -1273,6 +1317,9 @@ impl Sim for BodySim {
         };
         let pipe_capacity = if limit_default { 65_536 } else { pipe_capacity };
         let fault = if limit_default { WireFault::None } else { fault };
+        // late draw: one body in six belongs to a content class an extractor might be tempted to
+        // "normalise" (byte order marks, blanks, NULs, chunk-terminator look-alikes, gzip magic)
+        let content_class = if rng.chance(1, 6) { 1 + rng.below(8) as u8 } else { 0 };
         Script {
             wire,
             limit,
@@ -1289,6 +1336,7 @@ impl Sim for BodySim {
             limit_disabled: false,
             dual,
             limit_default,
+            content_class,
         }
     }
 
@@ -1362,6 +1410,11 @@ impl Sim for BodySim {
         if s.dual {
             let mut t = s.clone();
             t.dual = false;
+            c.push(t);
+        }
+        if s.content_class != 0 {
+            let mut t = s.clone();
+            t.content_class = 0;
             c.push(t);
         }
         if s.hint != Hint::Default {
